@@ -89,6 +89,8 @@ type addr struct {
 	field int
 	typ   types.Type // type of the addressed location
 	glob  *ssa.Global
+	sl    string // aElem through a slice: the slice term and the index
+	idx   string
 }
 
 func (fr *frame) load(a *addr, st *state) T {
@@ -112,6 +114,9 @@ func (fr *frame) load(a *addr, st *state) T {
 	case aElem:
 		s := vc.sortOf(a.typ)
 		h := vc.heapArr(s)
+		if a.sl != "" {
+			return T{vc.at(s, vc.heapGet(st, h), a.sl, a.idx), s, a.typ}
+		}
 		return T{fmt.Sprintf("(select (select %s %s) %s)", vc.heapGet(st, h), a.ref, a.pos), s, a.typ}
 	case aField:
 		b := fr.load(a.base, st)
